@@ -144,17 +144,18 @@ Qed.
 Lemma chain_entries_in l x y p : chain l x y p -> Forall (fun e => In e l) p.
 Proof. intros Hc. apply Forall_forall. intros e He. eapply chain_in; eassumption. Qed.
 
-Lemma undo_tail d : wf_store (store d) -> forall x y p, chain (store d) x y p ->
+Lemma undo_tail d : wf_store (store d) -> forall x y p, chain (store d) x y p -> y <> 0 ->
   forall f t, undo_chain f d x = Some (rev (map key p) ++ y :: t) -> exists f0, undo_chain f0 d y = Some (y :: t).
 Proof.
-  intros Hwf x y p HH. induction HH as [x|x y e p Hne Hf Hc IH]; intros f t Ht.
+  intros Hwf x y p HH Hy0. induction HH as [x|x y e p Hne Hf Hc IH]; intros f t Ht.
   - cbn [map rev app] in Ht. eauto.
   - destruct f as [|f]; [discriminate|]. cbn [undo_chain] in Ht. rewrite (link_of_stored d x e Hf) in Ht.
-    destruct (ws_id _ Hwf e (proj1 (find_some _ _ _ Hf))) as (_ & Hp & _).
+    assert (Hp : bparent (eb e) <> 0).
+    { apply (chain_parent_nz _ x y (p ++ [e]) Hwf Hy0); [econstructor; eassumption | apply in_or_app; right; left; reflexivity]. }
     destruct (N.eqb_spec (bparent (eb e)) 0); [contradiction|].
     destruct (undo_chain f d (bparent (eb e))) as [l'|] eqn:R; [|discriminate].
     injection Ht as Ht. rewrite map_app, rev_app_distr in Ht. cbn [map rev app] in Ht. injection Ht as _ Ht.
-    apply (IH f). rewrite R, Ht. reflexivity.
+    apply (IH Hy0 f). rewrite R, Ht. reflexivity.
 Qed.
 
 Lemma nodup_app_disj {A} (a b : list A) x : NoDup (a ++ b) -> In x a -> ~ In x b.
@@ -165,7 +166,7 @@ Proof.
   - exact (IH Hn' Ha Hb).
 Qed.
 
-Lemma scss_link d lib hd np pH pP : wf_store (store d) -> hd <> np ->
+Lemma scss_link d lib hd np pH pP : wf_store (store d) -> lib <> 0 -> hd <> np ->
   chain (store d) hd lib pH -> chain (store d) np lib pP ->
   (* the walk above the LIB never meets the part of the undo chain below the LIB *)
   (forall f t e, undo_chain f d lib = Some (lib :: t) -> In e pP -> ~ In (key e) t) ->
@@ -173,10 +174,14 @@ Lemma scss_link d lib hd np pH pP : wf_store (store d) -> hd <> np ->
     pP = C ++ R /\ pH = C ++ Uh /\
     sent_chain_switch_segments d hd np = ScssOk (rev Uh) (filter esent R) junc.
 Proof.
-  intros Hwf Hne HH HP Htail.
+  intros Hwf Hlib0 Hne HH HP Htail.
   destruct (meet _ _ _ _ Hwf HH np pP HP) as (C & R & j & HeqP & HR & Hdis & Hj).
-  destruct (undo_chain_chain d Hwf _ _ _ HH (fuel_of d) (enough_fuel_of d hd)) as [t Ht].
-  destruct (undo_tail d Hwf _ _ _ HH _ _ Ht) as [f0 Hf0].
+  destruct (undo_chain_chain d Hwf _ _ _ HH Hlib0 (fuel_of d) (enough_fuel_of d hd)) as [t Ht].
+  destruct (undo_tail d Hwf _ _ _ HH Hlib0 _ _ Ht) as [f0 Hf0].
+  assert (Hj0 : j <> 0).
+  { destruct Hj as [[_ ->]|(C0 & ej & Uh & HC & Hk & HpH)]; [exact Hlib0|].
+    rewrite <- Hk. apply (ws_id _ Hwf ej). eapply chain_in; [exact HH|]. rewrite HpH, HC.
+    apply in_or_app. left. apply in_or_app. right. left. reflexivity. }
   (* in both cases pH = C ++ Uh and the undo chain reads  rev (keys Uh) ++ j :: rest *)
   assert (Hsplit : exists Uh rest, pH = C ++ Uh /\ rev (map key pH) ++ lib :: t = rev (map key Uh) ++ j :: rest /\ ~ In j (rev (map key Uh))).
   { destruct Hj as [[-> ->]|(C0 & ej & Uh & -> & Hk & HpH)].
@@ -192,7 +197,7 @@ Proof.
   unfold sent_chain_switch_segments. destruct (N.eqb_spec hd np) as [E|_]; [contradiction|].
   unfold chain_switch_segments. rewrite Ht.
   assert (Hredo : redo_chain (fuel_of d) d (rev (map key pH) ++ lib :: t) np [] = Some (Some (map key R ++ [], j))).
-  { apply redo_chain_chain; [exact Hwf | exact HR | | | apply enough_fuel_of].
+  { apply redo_chain_chain; [exact Hwf | exact HR | exact Hj0 | | | apply enough_fuel_of].
     - intros e He. destruct (memN (key e) (rev (map key pH) ++ lib :: t)) eqn:M; [|reflexivity].
       exfalso. apply memN_in in M. apply in_app_or in M as [M|[M|M]].
       + apply in_rev in M. apply (proj1 (Hdis e He)). exact M.
